@@ -289,6 +289,8 @@ class Session:
             ev['after'] = self.dirt()
             return out, control
 
+        if self.be.close_on and self.be.close_on(text if text else ';', client):
+            return finish('close', 'close')
         if text == '':
             out.append(W.msg(b'I'))
             return finish('empty')
@@ -492,11 +494,34 @@ class Backend(threading.Thread):
         self.stopping = False
         self.startup_params = {}
         self.extra_startup = []     # extra ParameterStatus at startup
+        self.close_on = None        # predicate(text, client) -> close the connection instead of answering
+        self.fault_kind = 'up'
         self.scripts = []           # scripted replies: each a list of segments [(bytes, [chunk offsets])]
 
     # ---- control
     def set_mode(self, mode):
         self.mode = mode
+
+    def fault(self, kind):
+        """Failover faults: up | refuse | hang | badcheck | dies_under_statement."""
+        self.fault_kind = kind
+        self.hang_release.set()          # let go of anything that hung before
+        self.hang_on = None
+        self.close_on = None
+        self.mode = 'ok'
+        if kind == 'up':
+            return
+        if kind == 'refuse':
+            self.mode = 'refuse'
+            self.kill_connections()
+        elif kind == 'hang':
+            self.hang_release = threading.Event()
+            self.mode = 'hang_startup'
+            self.hang_on = lambda text: True
+        elif kind == 'badcheck':
+            self.close_on = lambda text, client: text.strip() == ';' or text.strip() == ''
+        elif kind == 'dies_under_statement':
+            self.close_on = lambda text, client: bool(client)
 
     def kill_connections(self):
         with self.lock:
